@@ -231,6 +231,10 @@ func (r *Run) finish() int {
 	if len(r.Obls) == 0 {
 		broken("no obligations were generated for %s (vacuous run)", r.Prop)
 	}
+	var selftest []selfTestResult
+	if r.Tier == "thorough" && r.Only == "" && os.Getenv("NPLINT_NO_SELFTEST") == "" {
+		selftest = r.selfTest()
+	}
 	wall := time.Since(r.start).Seconds()
 	evDir := filepath.Join(r.Verif, "evidence")
 	os.MkdirAll(evDir, 0o755)
@@ -276,6 +280,7 @@ func (r *Run) finish() int {
 			"trusted_base":         []string{"go/types + go/ssa (x/tools v0.29.0) model the source faithfully", "sync/atomic operations are linearizable", "role tables in /verif/checker (which function is the lock op / callback runner / pool primitive)"},
 			"exhaustive":           true,
 			"notes":                r.Notes,
+			"selftest_kill_matrix": selftest,
 		},
 	}
 	b, _ := json.MarshalIndent(ev, "", " ")
